@@ -31,6 +31,9 @@ type rgRunner struct {
 	forceRel   []int // replay: the members to release after the next sync (nil = choose at random)
 	forced     bool
 	backward   bool // the status went back to pending after the start (outside the histories of C19 / C20)
+	async      bool          // this history delays the ReleasePlayers reports of its tables (other operations come in between)
+	inflight   map[int][]int // table id -> players who have left that table and whose release has not been reported yet
+	delayNext  bool          // replay: the release of the sync at hand is reported later
 }
 
 func pidStr(ids []int) string {
@@ -75,6 +78,7 @@ func (g *rgRunner) newRG(max, min int) {
 	g.nextTbl, g.nextPid = 0, 0
 	g.status = "pending"
 	g.dead, g.started, g.everMin, g.backward = false, false, false, false
+	g.async, g.inflight, g.delayNext = false, map[int][]int{}, false
 	g.registered = 0
 	g.calls, g.choices, g.handed = nil, nil, nil
 	g.r = regulator.NewRegulator(
@@ -182,6 +186,11 @@ func (g *rgRunner) checkConservation(where string) {
 	for t, ms := range g.members {
 		for _, id := range ms {
 			put(id, fmt.Sprintf("table %d", t))
+		}
+	}
+	for t, ms := range g.inflight {
+		for _, id := range ms {
+			put(id, fmt.Sprintf("on the way back from table %d", t))
 		}
 	}
 	for id := range g.alive {
@@ -337,6 +346,26 @@ func (g *rgRunner) release(t int, ids []int) {
 	g.checkConservation(line)
 }
 
+// flush: a delayed release report of table t arrives.
+func (g *rgRunner) flush(t int) {
+	ids := g.inflight[t]
+	delete(g.inflight, t)
+	if len(ids) > 0 {
+		g.release(t, ids)
+	}
+}
+
+func (g *rgRunner) flushAll() {
+	ts := []int{}
+	for t := range g.inflight {
+		ts = append(ts, t)
+	}
+	sort.Ints(ts)
+	for _, t := range ts {
+		g.flush(t)
+	}
+}
+
 // sync: the table reports `out` eliminations, then carries out what it is told.
 // Returns whether the regulator asked for anything (release, new players or break).
 func (g *rgRunner) sync(t int, out int, rng *Rng) bool {
@@ -344,7 +373,7 @@ func (g *rgRunner) sync(t int, out int, rng *Rng) bool {
 		return false
 	}
 	_, known0 := g.members[t]
-	if out == 0 && known0 && g.status != "pending" {
+	if out == 0 && known0 && g.status != "pending" && len(g.inflight) == 0 && !g.async {
 		pre := g.measure()
 		asked := g.sync1(t, out, rng)
 		post := g.measure()
@@ -451,6 +480,13 @@ func (g *rgRunner) sync1(t int, out int, rng *Rng) bool {
 			ms = append(ms[:i], ms[i+1:]...)
 		}
 		g.members[t] = ms
+	}
+	if (len(released) > 0 || broken) && (g.delayNext || (g.async && !g.forced && rng.Chance(0.6))) {
+		// the players leave the table now; the table reports the release later (flush), other operations come first
+		g.inflight[t] = append(g.inflight[t], released...)
+		g.o.Count("rg.release_delayed")
+		g.checkConservation(line)
+		return asked
 	}
 	if len(released) > 0 || broken {
 		g.release(t, released)
@@ -568,6 +604,10 @@ func (g *rgRunner) tableIDs() []int {
 // settle: with no registrations and no eliminations, sweep all tables until a whole sweep
 // asks for nothing (C20).  Returns the number of sweeps that asked for something.
 func (g *rgRunner) settle(rng *Rng, limit int) int {
+	g.flushAll() // "carrying out the moves the regulator asks for": nothing is left under way in a settle phase
+	was := g.async
+	g.async = false
+	defer func() { g.async = was }()
 	sweeps := 0
 	for sweeps <= limit && !g.dead {
 		ids := g.tableIDs()
@@ -613,20 +653,30 @@ func (g *rgRunner) replay(lines []string) {
 		case "status":
 			g.setStatus(f[2])
 		case "sync":
-			g.forced, g.forceElim, g.forceRel = true, nil, nil
+			g.forced, g.forceElim, g.forceRel, g.delayNext = true, nil, nil, false
 			if len(f) > 4 {
 				g.forceElim = parseIDs(f[4])
 			}
-			if k+1 < len(lines) {
-				nf := strings.Fields(lines[k+1])
-				if len(nf) > 3 && nf[1] == "release" {
+			// the release that belongs to this sync: the next line when it was reported at once, a later
+			// `release` line of the same table (before its next sync) when it was delayed
+			for j := k + 1; j < len(lines); j++ {
+				nf := strings.Fields(lines[j])
+				if len(nf) > 3 && nf[1] == "release" && nf[2] == f[2] {
 					g.forceRel = parseIDs(nf[3])
+					g.delayNext = j > k+1
+					break
+				}
+				if len(nf) > 2 && (nf[1] == "new" || (nf[1] == "sync" && nf[2] == f[2])) {
+					break
 				}
 			}
 			g.sync(int(atoi(f[2])), int(atoi(f[3])), rng)
-			g.forced = false
+			g.forced, g.delayNext = false, false
 		case "release":
-			// carried out by the sync that precedes it
+			// reported at once: carried out by the sync that precedes it; delayed: arrives now
+			if _, ok := g.inflight[int(atoi(f[2]))]; ok {
+				g.flush(int(atoi(f[2])))
+			}
 		}
 	}
 }
@@ -647,14 +697,28 @@ func runRG(dir string, seed uint64, n int) {
 			min = rng.Intn(6)
 			o.Count("rg.odd_settings")
 		}
+		asyncH := rng.Chance(0.25) // tables of this history report their releases late: syncs of other tables, registrations and status changes come in between
 		backP := 0.0
 		if rng.Chance(0.1) {
 			backP = 0.25 // a history in which the status may go back to pending (C09 only)
 		}
 		g.newRG(max, min)
+		if asyncH {
+			g.async = true
+			o.Count("rg.async_histories")
+		}
 		steps := 5 + rng.Intn(40)
 		for s := 0; s < steps && !g.dead; s++ {
 			k := rng.Intn(100)
+			if len(g.inflight) > 0 && rng.Chance(0.35) {
+				ts := []int{}
+				for t := range g.inflight {
+					ts = append(ts, t)
+				}
+				sort.Ints(ts)
+				g.flush(ts[rng.Intn(len(ts))])
+				continue
+			}
 			switch {
 			case k < 30:
 				cnt := 1 + rng.Intn(4)
@@ -713,6 +777,7 @@ func runRG(dir string, seed uint64, n int) {
 				}
 			}
 		}
+		g.flushAll()
 		o.Count(fmt.Sprintf("rg.max.%d", max))
 		o.Mark("C09", fmt.Sprintf("%d/%d/%d/%d", max, min, len(g.alive), len(g.members)))
 		o.Mark("C19", fmt.Sprintf("%d/%d/%d/%d", max, min, g.registered, g.nextTbl))
